@@ -9,15 +9,8 @@ import gen_c17  # noqa: E402
 
 
 def classify(case, kind):
-    """known-finding classes of a failing case"""
-    if kind == "prop" and case.get("kind") == "perm-invalid" and case.get("fault") == "duplicate-directive-definition":
-        # the only difference allowed is the one the finding describes: the schema check passes for one arrangement
-        # and reports misuse of the directive (location / arguments) for the other
-        kinds = set(k for k, _ in case.get("diagnostic_kinds", []) + case.get("permuted_diagnostic_kinds", []))
-        stages = {case.get("verdict"), case.get("permuted_verdict")}
-        if kinds <= {"DirectiveLocationNotAllowed", "UnknownArgument", "RequiredArgumentNotSpecified", "ScalarTypeNotProvided"} \
-                and "check-schema" in stages and not any(str(x).startswith("panic") for x in stages):
-            return {"duplicate-directive-definition"}
+    """known-finding classes of a failing case (none: the former `duplicate-directive-definition` finding is repaired
+    by /repo 451006c and is now an ordinary `perm-invalid` fault whose two arrangements must both be rejected)"""
     return set()
 
 
